@@ -30,7 +30,7 @@ RULE = ('forms: matrices from tables.rand_spec (dims 1..4, all value kinds incl.
         'unsorted), scipy csr/csc (raw arrays with stored zeros and unsorted indices)/coo (shuffled, explicit zeros, '
         'duplicates)/lil/dok/bsr each also WITH explicitly stored zeros, lists of dok rows (a dok_matrix is a dict: another converter), '
         'mixed-layout row lists with a dok or a non-dok first row}; every form that carries a dtype (ndarray, row arrays, every scipy layout, '
-        'sparse / dok / mixed rows) in a random dtype that represents its values exactly: float64/32/16, int8..64, uint8..64, bool; of every constructed table the queries that look at '
+        'sparse / dok / mixed rows) in a random dtype that represents its values exactly: float64/32/16, int8..64, uint8..64, bool (row lists also with a different dtype per row, narrow first or last); of every constructed table the queries that look at '
         'stored entries are asked before anything reads nnz: matrix_data.nnz, nonzero(), min per axis and overall, against the plain '
         'non-zero cells and against a twin built from the float64 dense array, with which it must also compare == / != in both directions, hold float64 and export to_json; then the table is transformed in place and the untouched input object must construct the described table again; ctor: the same forms with ids duplicated anywhere on an axis, one id too '
         'few / too many, an explicit zero at a coordinate without an id as the only fault, metadata too short / too long / all-empty of the wrong size / holding a non-mapping (truthy or '
@@ -119,13 +119,15 @@ def make_input(inp):
         return {(r, c): v for r, c, v in inp[1]}, {}
     if k == 'rowarrays':
         _, dtype, rows = inp
-        return [_arr(r, 1, len(r), dtype).reshape(len(r)) for r in rows], {}
+        dts = dtype if isinstance(dtype, list) else [dtype] * len(rows)
+        return [_arr(r, 1, len(r), d).reshape(len(r)) for r, d in zip(rows, dts)], {}
     if k == 'rowdicts':
         return [{(a, j): v for a, j, v in row} for row in inp[1]], {}
     if k == 'sparserows':
         out = []
-        dt = np_dtype(inp[2] if len(inp) > 2 else 'float64')
-        for w, cv in inp[1]:
+        dts = inp[2] if len(inp) > 2 else 'float64'
+        dts = dts if isinstance(dts, list) else [dts] * len(inp[1])
+        for (w, cv), dt in zip(inp[1], map(np_dtype, dts)):
             arrs = (np.array([v for _, v in cv], dtype=float).astype(dt), np.array([c for c, _ in cv], dtype=np.int32),
                     np.array([0, len(cv)], dtype=np.int32))
             out.append(csr_matrix(arrs, shape=(1, w)))
@@ -133,8 +135,9 @@ def make_input(inp):
     if k in ('dokrows', 'mixedrows'):
         # list of 1 x w sparse rows in the layouts named per row ('dok' first for 'dokrows')
         out = []
-        dt = np_dtype(inp[2] if len(inp) > 2 else 'float64')
-        for lay, w, cv in inp[1]:
+        dts = inp[2] if len(inp) > 2 else 'float64'
+        dts = dts if isinstance(dts, list) else [dts] * len(inp[1])
+        for (lay, w, cv), dt in zip(inp[1], map(np_dtype, dts)):
             arrs = (np.array([v for _, v in cv], dtype=float).astype(dt), np.array([c for c, _ in cv], dtype=np.int32),
                     np.array([0, len(cv)], dtype=np.int32))
             m = csr_matrix(arrs, shape=(1, w))
@@ -247,13 +250,16 @@ def applicable(v, M):
 
 def input_dtype(inp):
     k = inp[0]
+    d = None
     if k in ('array', 'rowarrays'):
-        return _ALIAS.get(inp[1], inp[1])
-    if k == 'sparse':
-        return _ALIAS.get(inp[2], inp[2])
-    if k in ('sparserows', 'dokrows', 'mixedrows'):
-        return inp[2] if len(inp) > 2 else 'float64'
-    return None
+        d = inp[1]
+    elif k == 'sparse':
+        d = inp[2]
+    elif k in ('sparserows', 'dokrows', 'mixedrows'):
+        d = inp[2] if len(inp) > 2 else 'float64'
+    if isinstance(d, list):
+        return 'per-row:' + ('narrow-first' if np_dtype(d[0]) != np.float64 else 'wide-first')
+    return _ALIAS.get(d, d) if d else None
 
 
 def encode_matrix(rng, v, M):
@@ -264,6 +270,33 @@ def encode_matrix(rng, v, M):
     if k not in ('array', 'rowarrays', 'sparse', 'sparserows', 'dokrows', 'mixedrows'):
         return inp
     if v in ('array_int', 'array_bool', 'rowarrays_int', 'csr_int') and rng.random() < 0.5:
+        return inp
+    if k in ('rowarrays', 'sparserows', 'dokrows', 'mixedrows') and len(M) > 1 and rng.random() < 0.45:
+        # rows of DIFFERENT dtypes: a narrow one that holds its own row exactly, float64 for the others;
+        # narrow first (the first row must not decide for the others) or last
+        sparse = k != 'rowarrays'
+        es = entries_of(inp)
+        per = []
+        for i in range(len(M)):
+            rv = [e[2] for e in es if e[0] == i] + ([x for x in M[i]] if not sparse else [])
+            ok = [d for d in DTYPES if d != 'float64' and dtype_fits(d, rv or [0.0], sparse)]
+            per.append(rng.choice(ok) if ok else 'float64')
+        n_narrow = rng.randint(1, len(M) - 1)
+        if rng.random() < 0.6:
+            # prefer a first dtype that could NOT hold the later rows
+            rv0 = [e[2] for e in es if e[0] == 0] + ([x for x in M[0]] if not sparse else [])
+            later = [e[2] for e in es if e[0] != 0] + [x for row in M[1:] for x in row]
+            clash = [d for d in DTYPES if d != 'float64' and dtype_fits(d, rv0 or [0.0], sparse) and not dtype_fits(d, later, sparse)]
+            if clash and rng.random() < 0.8:
+                per[0] = rng.choice(clash)
+            dts = per[:n_narrow] + ['float64'] * (len(M) - n_narrow)
+        else:
+            dts = ['float64'] * (len(M) - n_narrow) + per[len(M) - n_narrow:]
+        inp = list(inp)
+        if k == 'rowarrays':
+            inp[1] = dts
+        else:
+            inp = inp[:2] + [dts]
         return inp
     vals = [e[2] for e in entries_of(inp)] + [x for row in M for x in row]
     dt = pick_dtype(rng, vals, sparse=k not in ('array', 'rowarrays'))
@@ -755,9 +788,19 @@ def gen_forms(rng):
         spec['mat'] = [[float(rng.random() < 0.5) for _ in r] for r in spec['mat']]
     spec['layout'] = []
     M = spec['mat']
+    rowlists = False
+    if len(M) > 1 and rng.random() < 0.12:
+        # a first row of 0/1 (fits bool, uint8, int8 ...) above rows with fractions, negatives and counts
+        M[0] = [float(rng.random() < 0.6) for _ in M[0]]
+        for i in range(1, len(M)):
+            M[i] = [rng.choice([0.0, 0.25, 5.75, -3.0, 40.0, 300.0]) for _ in M[i]]
+        rowlists = True
     vs = [v for v in VARIANTS if applicable(v, M)]
     n = rng.randint(3, 5)
     picks = [rng.choice(vs) for _ in range(n)]
+    if rowlists:
+        picks[0] = 'rowarrays'
+        picks[1] = rng.choice(['sparserows', 'rowarrays', 'mixedrows_csr_first', 'dokrows'])
     return {'kind': 'forms', 'spec': spec, 'variants': picks, 'inputs': [encode_matrix(rng, v, M) for v in picks]}
 
 
